@@ -532,8 +532,10 @@ class Account:
                    outputs=1, broadcast=False, **constraints):
         assert self.ledger == to_account.ledger, 'Can only transfer between accounts of the same ledger.'
         if everything:
-            utxos = await self.get_utxos(**constraints)
-            await self.ledger.reserve_outputs(utxos)
+            # select + reserve under the same lock as every other transaction build
+            async with self.ledger._utxo_reservation_lock:  # pylint: disable=protected-access
+                utxos = await self.get_utxos(**constraints)
+                await self.ledger.reserve_outputs(utxos)
             tx = await Transaction.create(
                 inputs=[Input.spend(txo) for txo in utxos],
                 outputs=[],
